@@ -13,31 +13,31 @@ ENTRIES = [
     B('regress-wb', "mode='r+b'", "mode='wb'", 'C06-D1'),
     B('append-wb', "open_func(self._warc_filename, mode='ab')", "open_func(self._warc_filename, mode='wb')", 'C06-D1'),
     B('journal-after-open',
-      """        with open(journal_filename, 'w') as file:
-            file.write('wpull-journal-version:1\\n')
-            file.write('offset:{}\\n'.format(before_offset))
+      """            with open(journal_filename, 'w') as file:
+                file.write('wpull-journal-version:1\\n')
+                file.write('offset:{}\\n'.format(before_offset))
 
-        try:
             with open_func(self._warc_filename, mode='ab') as out_file:
 """,
-      """        try:
-            with open_func(self._warc_filename, mode='ab') as out_file:
+      """            with open_func(self._warc_filename, mode='ab') as out_file:
                 with open(journal_filename, 'w') as file:
                     file.write('wpull-journal-version:1\\n')
                     file.write('offset:{}\\n'.format(before_offset))
 """, 'C06-D2'),
     B('remove-not-finally',
-      """            raise error
+      """            raise
         finally:
-            os.remove(journal_filename)
+            if os.path.exists(journal_filename):
+                os.remove(journal_filename)
 """,
-      """            raise error
+      """            raise
 
-        os.remove(journal_filename)
+        if os.path.exists(journal_filename):
+            os.remove(journal_filename)
 """, 'C06-D3'),
     B('rollback-after-offset', "out_file.truncate(before_offset)",
       "out_file.truncate(os.path.getsize(self._warc_filename))", 'C06-D3'),
-    B('rollback-swallow', "            raise error\n        finally:", "        finally:", 'C06-D3'),
+    B('rollback-swallow', "            raise\n        finally:", "        finally:", 'C06-D3'),
     B('no-journal-check', "        self._check_journals_and_maybe_raise()\n\n        if params.log:", "        if params.log:", 'C06-D4'),
     B('journal-check-late',
       "        self._check_journals_and_maybe_raise()\n\n        if params.log:\n            self._setup_log()\n\n        self._start_new_warc_file()\n",
@@ -48,12 +48,25 @@ ENTRIES = [
       "file.write('offset:{}\\n'.format(before_offset))", "file.write('offset:{}\\n'.format(0))", 'C06-D2'),
     B('truncate-when-appending', "        if not self._params.appending:\n            wpull.util.truncate_file(self._warc_filename)",
       "        if True:\n            wpull.util.truncate_file(self._warc_filename)", 'C06-D1'),
-    B('handler-narrowed', "except (OSError, IOError) as error:", "except (ValueError,) as error:", 'C06-D3'),
+    B('handler-narrowed', "        except BaseException:\n            # Not only I/O errors", "        except (ValueError,):\n            # Not only I/O errors", 'C06-D3'),
+    B('regress-rollback-only-oserror', "        except BaseException:\n            # Not only I/O errors", "        except (OSError, IOError):\n            # Not only I/O errors", 'C06-D3'),
+    B('regress-journal-outside-try', """        try:
+            with open(journal_filename, 'w') as file:
+                file.write('wpull-journal-version:1\\n')
+                file.write('offset:{}\\n'.format(before_offset))
+
+            with open_func""", """        with open(journal_filename, 'w') as file:
+            file.write('wpull-journal-version:1\\n')
+            file.write('offset:{}\\n'.format(before_offset))
+
+        try:
+            with open_func""", 'C06-D3'),
     N('rename-local', "before_offset", "size_before"),
     N('reorder-journal-name',
-      "        journal_filename = self._warc_filename + '-wpullinc'\n\n        with open(journal_filename, 'w') as file:",
-      "        journal_filename = self._warc_filename + '-wpullinc'\n        _logger.debug('journal {}', journal_filename)\n\n        with open(journal_filename, 'w') as file:"),
-    N('bare-raise', "            raise error\n        finally:", "            raise\n        finally:"),
+      "        journal_filename = self._warc_filename + '-wpullinc'\n\n        try:",
+      "        journal_filename = self._warc_filename + '-wpullinc'\n        _logger.debug('journal {}', journal_filename)\n\n        try:"),
+    N('named-reraise', "        except BaseException:\n            # Not only I/O errors", "        except BaseException as error:\n            # Not only I/O errors", ),
+    N('journal-removed-unconditionally', "            if os.path.exists(journal_filename):\n                os.remove(journal_filename)\n", "            os.remove(journal_filename)\n"),
     N('os-truncate',
       "            with open(self._warc_filename, mode='r+b') as out_file:\n                out_file.truncate(before_offset)\n",
       "            os.truncate(self._warc_filename, before_offset)\n"),
